@@ -184,6 +184,11 @@ class Planned(Exception):
     """Exception injected by the simulator (abort point / hook fault)."""
 
 
+class PlannedBase(BaseException):
+    """The same, but not an Exception subclass (what KeyboardInterrupt, SystemExit,
+    GeneratorExit or asyncio.CancelledError look like to a `with` block)."""
+
+
 # ---------------------------------------------------------------------------
 # abstract operations
 
